@@ -528,13 +528,14 @@ def hook_history(rng):
     st['shrink'] = rng.random() < 0.7
     evs = [('api', 'addExcludeRegion', reg, False), ('event', 'PRINT_STARTED'), ('cmd', 'G28'), ('cmd', 'G1 X5 Y5 Z0.3 E1 F3000')]
     entry = rng.random()
+    enter_ = rng.choice(['G1 X15 Y15 E1.5', 'G1 X15 Y15 E1.5', 'G1 X15 Y15 Z0.6 E1.5', 'G1 X15 Y15 Z0.2', 'G1 X15 Y15 Z0.5 E0.7'])     # entering moves that also change Z / E
     if entry < 0.25:
         # moves made while exclusion is switched off are tracked all the same: the entering move names one axis only
         evs += [('at', '@ExcludeRegion off', False), ('cmd', rng.choice(['G1 X15 Y5 E1.2', 'G1 X15 E1.2', 'G0 X15'])), ('at', '@ExcludeRegion on', False),
                 ('cmd', rng.choice(['G1 Y15 E1.5', 'G1 Y15', 'G0 Y12 F6000']))]
     elif entry < 0.4:
         # relative positioning: there-and-back moves inside the region leave binary64 residue in the offsets the clean-up has to undo
-        evs += [('cmd', 'G1 X15 Y15 E1.5'), ('cmd', 'G91')]
+        evs += [('cmd', enter_), ('cmd', 'G91')]
         ax = rng.choice('XYZ')
         for a in rng.choice([('0.1', '0.2', '-0.3'), ('0.7', '-0.1', '-0.6'), ('1.1', '2.2', '-3.3')]):
             evs.append(('cmd', 'G1 %s%s' % (ax, a)))
@@ -542,15 +543,15 @@ def hook_history(rng):
             evs.append(('cmd', 'G90'))
     elif entry < 0.65 and entry >= 0.55:
         # the tool leaves the region while exclusion is off; switched on again, a single-axis move stays outside (judged from where the tool really is)
-        evs += [('cmd', 'G1 X15 Y15 E1.5'), ('at', '@ExcludeRegion off', False), ('cmd', rng.choice(['G1 X40 Y40 E2', 'G0 X40 Y40', 'G1 X40 Y5 E2'])),
+        evs += [('cmd', enter_), ('at', '@ExcludeRegion off', False), ('cmd', rng.choice(['G1 X40 Y40 E2', 'G0 X40 Y40', 'G1 X40 Y5 E2'])),
                 ('at', '@ExcludeRegion on', False), ('cmd', rng.choice(['G1 Y16 E2.5', 'G1 Y12', 'G1 Y18 E2.2'])), ('cmd', 'G1 X15 E3')]
     elif entry < 0.55:
         # units switched inside the episode and Z moved afterwards: whether Z goes first or last on the way back is decided in millimetres
-        evs += [('cmd', 'G1 X15 Y15 E1.5'), ('cmd', 'G20'), ('cmd', rng.choice(['G1 Z0.02', 'G1 Z0.005', 'G1 Z0.3', 'G1 Z0.011811']))]
+        evs += [('cmd', enter_), ('cmd', 'G20'), ('cmd', rng.choice(['G1 Z0.02', 'G1 Z0.005', 'G1 Z0.3', 'G1 Z0.011811']))]
         if rng.random() < 0.4:
             evs.append(('cmd', 'G21'))
     else:
-        evs.append(('cmd', 'G1 X15 Y15 E1.5'))
+        evs.append(('cmd', enter_))
     for _ in range(rng.randint(0, 4) if entry >= 0.65 else rng.randint(0, 1)):
         k = rng.random()
         if k < 0.25:
